@@ -133,6 +133,7 @@ func runC13Reinit(w *World, tier string, spec *crashSpec, out *c13Run) (bool, in
 	if !w.Failed() {
 		done = reinitDone() && signed && c2.Tr.AllHaveBatch(c2.Tr.LastBatch(), newIdx)
 		so.checkStores(round, newIdx)
+		checkNoDuplicateStoreEntries(w, "C13", round, newIdx)
 	}
 	if out != nil {
 		out.completed = done
